@@ -681,8 +681,10 @@ def build_population_circuit(ps):
     return CircuitTemplate(name="popnet", populations=pops, connections=conns)
 
 
-def check_population(ps, T=0.5, dt=0.05, solver="euler"):
-    """C16-B: the Population/Connectivity circuit equals the explicit node-and-edge network, unit by unit."""
+def check_population(ps, T=0.5, dt=0.05, solver="euler", explicit_route=False):
+    """C16-B: the Population/Connectivity circuit equals the explicit node-and-edge network, unit by unit.
+    explicit_route: additionally the explicit network is built and run THROUGH PyRates (scalar edges, vectorize=False) and must give
+    the same trajectories as the population circuit (the same delay / spread meaning on both kinds of edges)."""
     explicit = population_to_explicit(ps)
     adaptive = solver == "scipy"
     if adaptive:
@@ -729,6 +731,21 @@ def check_population(ps, T=0.5, dt=0.05, solver="euler"):
                 bad = int(np.argmax(np.abs(got - want))) if got.shape == want.shape else -1
                 fails.append(dict(clause="population unit equals the explicit network's node", var=f"{pname}_{i}/{o}/{v}", row=bad,
                                   observed=float(got[bad]) if bad >= 0 else list(got.shape), expected=float(want[bad]) if bad >= 0 else list(want.shape)))
+    if explicit_route and not fails and not adaptive:
+        try:
+            clear_all_caches()
+            df2, outs2, _ = run_model(explicit, T, dt, None, solver, False)
+        except Exception as exn:
+            return [dict(clause="the explicit node-and-edge network compiles and runs", observed=f"{type(exn).__name__}: {exn}")]
+        for key2, path2 in outs2.items():
+            got2 = np.asarray(df2[key2], dtype=float).reshape(len(df2.index), -1)[:, 0]
+            want2 = ref[path2]
+            if got2.shape != want2.shape or not np.allclose(got2, want2, **tol):
+                bad = int(np.argmax(np.abs(got2 - want2))) if got2.shape == want2.shape else -1
+                fails.append(dict(clause="the explicit network with one scalar edge per matrix entry (built through PyRates) has the same dynamics as the "
+                                         "population circuit", var=path2, row=bad, observed=float(got2[bad]) if bad >= 0 else list(got2.shape),
+                                  expected=float(want2[bad]) if bad >= 0 else list(want2.shape)))
+                break
     return fails
 
 
